@@ -28,10 +28,10 @@ def generate(seed, tier, opts):
     d = Decider(seed, "pool")
     mode = d.weighted("mode", [("integration", opts.get("w_integration", 3)), ("runner-real", opts.get("w_runner_real", 2)), ("runner-stub", opts.get("w_runner_stub", 6)), ("fidelity", opts.get("w_fidelity", 0))])
     real = mode != "runner-stub"
-    th, op = cards.gen_cards(d, real=real, max_targets=3, xgrid_max=8 if mode in ("integration", "fidelity") else 4)
+    th, op = cards.gen_cards(d, real=real, max_targets=3, xgrid_max=8 if mode in ("integration", "fidelity") else 4, qed_frac=0.1 if mode in ("integration", "fidelity") else 0.0)
     if real and mode != "runner-real":
         op["mugrid"] = op["mugrid"][:1]
-        if len(op["xgrid"]) > 4 and th["order"][0] > 1:
+        if len(op["xgrid"]) > 4 and th["order"][0] > 1 and th["order"][1] == 0:
             # larger grids only with the (cheap) LO kernels
             th["order"] = [1, 0]
             th["matching_order"] = [0, 0]
